@@ -67,6 +67,8 @@ IsRot(M) == /\ \A i \in 1..3 : M[i] \in Units
 (*   Sphere          dim = <<d>> (even)                 exc = polarization                         *)
 (*   Tetrahedron     verts = 4 local lattice points     exc = polarization                         *)
 (*   TriangularMesh  dim = <<dx,dy,dz>>: the 12-triangle mesh of that box (box-like mesh)          *)
+(*                   dim = <<>>, verts = <<lo1, hi1, lo2, hi2, ..>>: the closed surface mesh of the *)
+(*                   UNION of the lattice boxes [lo_i, hi_i] (non-convex orthogonal bodies: U, L, notch) *)
 (*   Triangle        verts = 3 local lattice points     exc = polarization (charged sheet)         *)
 (*   Dipole          exc = moment                                                                  *)
 (*   Circle          dim = <<d>> (even)                 exc = <<I>>  (counter-clockwise about +z)  *)
@@ -74,6 +76,9 @@ IsRot(M) == /\ \A i \in 1..3 : M[i] \in Units
 Magnets == {"Cuboid", "Cylinder", "CylinderSegment", "Sphere", "Tetrahedron", "TriangularMesh"}
 Currents == {"Circle", "Polyline"}
 Classes == Magnets \cup Currents \cup {"Dipole", "Triangle"}
+UnionMesh(s) == s.cls = "TriangularMesh" /\ Len(s.dim) = 0
+UBox(s, i) == [lo |-> s.verts[2 * i - 1], hi |-> s.verts[2 * i]]                 \* i-th box of a union mesh (local frame)
+UCount(s) == Len(s.verts) \div 2
 Src(cls, R, p, dim, exc, verts) == [cls |-> cls, R |-> R, p |-> p, dim |-> dim, exc |-> exc, verts |-> verts]
 CurrentOf(s) == IF s.cls \in Currents THEN s.exc[1] ELSE 0
 
@@ -82,7 +87,8 @@ VertBox(vs) == LET xs(k) == {vs[i][k] : i \in DOMAIN vs}
                    hi |-> <<SetMax(xs(1)), SetMax(xs(2)), SetMax(xs(3))>>]
 \* bounding box of a source in its local frame
 LocalBox(s) ==
-  CASE s.cls \in {"Cuboid", "TriangularMesh"} ->
+  CASE UnionMesh(s) -> VertBox(s.verts)
+    [] s.cls \in {"Cuboid", "TriangularMesh"} ->
          LET h == <<s.dim[1] \div 2, s.dim[2] \div 2, s.dim[3] \div 2>> IN [lo |-> Neg3(h), hi |-> h]
     [] s.cls = "Cylinder" -> LET h == <<s.dim[1] \div 2, s.dim[1] \div 2, s.dim[2] \div 2>> IN [lo |-> Neg3(h), hi |-> h]
     [] s.cls = "CylinderSegment" -> LET h == <<s.dim[2], s.dim[2], s.dim[3] \div 2>> IN [lo |-> Neg3(h), hi |-> h]
@@ -100,7 +106,8 @@ BoxCorners(b) == {<<x, y, z>> : x \in {b.lo[1], b.hi[1]}, y \in {b.lo[2], b.hi[2
 
 WellFormedSrc(s) ==
   /\ s.cls \in Classes /\ IsRot(s.R)
-  /\ CASE s.cls \in {"Cuboid", "TriangularMesh"} -> Len(s.dim) = 3 /\ \A k \in 1..3 : s.dim[k] > 0 /\ s.dim[k] % 2 = 0
+  /\ CASE UnionMesh(s) -> Len(s.verts) >= 2 /\ Len(s.verts) % 2 = 0 /\ \A i \in 1..UCount(s) : \A k \in 1..3 : UBox(s, i).lo[k] < UBox(s, i).hi[k]
+       [] s.cls \in {"Cuboid", "TriangularMesh"} -> Len(s.dim) = 3 /\ \A k \in 1..3 : s.dim[k] > 0 /\ s.dim[k] % 2 = 0
        [] s.cls = "Cylinder" -> Len(s.dim) = 2 /\ \A k \in 1..2 : s.dim[k] > 0 /\ s.dim[k] % 2 = 0
        [] s.cls = "CylinderSegment" -> /\ Len(s.dim) = 5 /\ 0 <= s.dim[1] /\ s.dim[1] < s.dim[2] /\ s.dim[3] > 0 /\ s.dim[3] % 2 = 0
                                        /\ s.dim[4] < s.dim[5] /\ s.dim[5] - s.dim[4] <= 24 /\ s.dim[4] >= -24 /\ s.dim[5] <= 24
@@ -160,7 +167,9 @@ Periodic(S) == UNION {{x - 24, x, x + 24} : x \in S}
 None3 == <<{}, {}, {}>>
 \* material surfaces (discontinuities of B or H) of an adapted body, as coordinate values per chart axis
 Surf(s, ch) ==
-  CASE s.cls \in {"Cuboid", "TriangularMesh"} ->
+  CASE UnionMesh(s) ->                   \* the planes of all box faces (those inside the union are harmless extra breakpoints)
+         LET fb(i) == FrameBox(ch, MoveBox(s.R, s.p, UBox(s, i))) IN [k \in 1..3 |-> UNION {{fb(i).lo[k], fb(i).hi[k]} : i \in 1..UCount(s)}]
+    [] s.cls \in {"Cuboid", "TriangularMesh"} ->
          LET c == ToFrame(ch, s.p)
              h == MulMV(AbsM(MulMM(Tr(ch.R), s.R)), <<s.dim[1] \div 2, s.dim[2] \div 2, s.dim[3] \div 2>>)
          IN [k \in 1..3 |-> {c[k] - h[k], c[k] + h[k]}]
@@ -192,7 +201,8 @@ Surf(s, ch) ==
 \*  TriangularMesh field_BH_triangularmesh.py:434-496 enclosing box, ray test -> box planes (Surf) for box-like meshes
 AxisPar(a, b) == Cardinality({k \in 1..3 : a[k] # b[k]}) = 1
 Switch(s, ch) ==
-  CASE s.cls \in {"Cuboid", "TriangularMesh"} -> LET c == ToFrame(ch, s.p) IN [k \in 1..3 |-> {c[k]}]
+  CASE UnionMesh(s) -> None3
+    [] s.cls \in {"Cuboid", "TriangularMesh"} -> LET c == ToFrame(ch, s.p) IN [k \in 1..3 |-> {c[k]}]
     [] s.cls = "Cylinder" -> <<IF s.dim[1] % 40 = 0 THEN {s.dim[1] \div 40} ELSE {}, {}, {}>>
     [] s.cls = "CylinderSegment" -> <<{}, IF s.dim[5] - s.dim[4] = 24 THEN {} ELSE Periodic({s.dim[4] + 12, s.dim[5] + 12, s.dim[4] - 12, s.dim[5] - 12}), {}>>
     [] s.cls = "Circle" -> <<{s.dim[1] \div 2}, {}, {0}>>
@@ -253,7 +263,8 @@ FluxPremise(scene, ch, lo, hi, full) ==
 \* coverage class of a cell with respect to one body: "free" | "inside" | "cut" | "encloses"
 InsideAdapted(s, ch, lo, hi) ==
   LET S == Surf(s, ch) IN
-  CASE s.cls \in {"Cuboid", "TriangularMesh"} -> \A k \in 1..3 : SetMin(S[k]) < lo[k] /\ hi[k] < SetMax(S[k])
+  CASE UnionMesh(s) -> \E i \in 1..UCount(s) : StrictlyIn([lo |-> lo, hi |-> hi], FrameBox(ch, MoveBox(s.R, s.p, UBox(s, i))))
+    [] s.cls \in {"Cuboid", "TriangularMesh"} -> \A k \in 1..3 : SetMin(S[k]) < lo[k] /\ hi[k] < SetMax(S[k])
     [] s.cls = "Cylinder" -> hi[1] < s.dim[1] \div 2 /\ -(s.dim[2] \div 2) < lo[3] /\ hi[3] < s.dim[2] \div 2
     [] s.cls = "CylinderSegment" -> s.dim[1] < lo[1] /\ hi[1] < s.dim[2] /\ -(s.dim[3] \div 2) < lo[3] /\ hi[3] < s.dim[3] \div 2
                                      /\ (s.dim[5] - s.dim[4] = 24 \/ \E j \in {-24, 0, 24} : s.dim[4] + j < lo[2] /\ hi[2] < s.dim[5] + j)
